@@ -222,3 +222,9 @@ for _p in ("C03", "C14"):
                                   "indexing / broadcasting / in-order slice assignment; the Obara-Saika vertical relation characterises the auxiliary "
                                   "integrals (tied to the Boys-derivative specification by the per-shape contract up to l_a + l_b = 6); contraction, "
                                   "horizontal recursion and component norms are covered per shape only")
+for _p in ("C04", "C17"):
+    CHECKS[_p].harnesses.append("contracts.unbounded:TwoElecRecursionsAnyL")
+    CHECKS[_p].assumptions.append("contracts.unbounded (vertical and electron-transfer recursions of the two-electron kernel, any l): engine/generic.py's "
+                                  "reading of numpy basic indexing / broadcasting / in-order slice assignment; the Obara-Saika / HGP relations characterise "
+                                  "the auxiliary integrals (tied to the Boys-derivative specification by the per-shape contract up to total l = 8); "
+                                  "contraction, horizontal recursions and component norms are covered per shape only")
